@@ -659,6 +659,19 @@ def c17(ctx):
     rng = random.Random(ctx.seed)
     ctx.mc('HashFile', 'MC_HashFile.cfg')
     ctx.mc('HashFile', 'MC_HashFile_capped.cfg', expect_violation='Whole', coverage=False)
+    # unbounded: the counting argument as an inductive invariant, discharged by Apalache for every content
+    # length, hint, buffer and slurp size (and refuted for the capped-slurp mistake)
+    apa = [('init', tlc.run_apalache('apalache/HashFileInd.tla', 'ConstInit', 'Init', 'IndInv', 0), 'ok'),
+           ('step', tlc.run_apalache('apalache/HashFileInd.tla', 'ConstInit', 'IndInit', 'IndInv', 1), 'ok'),
+           ('implies SizeOK', tlc.run_apalache('apalache/HashFileInd.tla', 'ConstInit', 'IndInit', 'SizeOK', 0), 'ok'),
+           ('capped slurp', tlc.run_apalache('apalache/HashFileInd.tla', 'ConstInitCapped', 'IndInit', 'IndInv', 1), 'violation')]
+    if any(r == 'unavailable' for _, r, _ in apa):
+        ctx.skipped.append('apalache-mc not on PATH: inductive invariant of HashFileInd.tla not checked')
+    else:
+        for name, got, want in apa:
+            if got != want:
+                raise tlc.MachineryError('Apalache HashFileInd %s: expected %s, got %s' % (name, want, got))
+        ctx.extra['apalache'] = {'spec': 'specs/apalache/HashFileInd.tla', 'obligations': [[n, g] for n, g, _ in apa]}
     lens = list(range(0, 301)) + [65534, 65535, 65536, 65537, 65538, 131071, 131072, 131073,
                                   1048574, 1048575, 1048576, 1048577, 1048578]
     lens += [rng.randrange(1100000, 3500000) for _ in range(12 if thorough else 2)]
